@@ -374,6 +374,26 @@ pub fn model_pool(tier: Tier) -> Vec<(String, Vec<u8>)> {
         w[n] = -5;
         out.push((name.to_string(), ModelSpec { dict_model: vec![WordWeightRecord { word, weights: w, comment: "".into() }], char_window_size: 1, type_window_size: 1, ..Default::default() }.to_bytes()));
     }
+    // ONE giant string per file (beyond 64 KiB and beyond 128 KiB: a writer growing its buffer in fixed steps, a
+    // reader with a length cap): a dictionary comment, a tag name, a tag-model token, a word of 32767 four-byte characters
+    for (name, n) in [("comment", 70_000usize), ("comment", 140_000), ("comment", 300_000), ("tag", 66_000), ("tag", 140_000), ("token", 140_000), ("word4", 32_767)] {
+        let mut m = ModelSpec { char_window_size: 1, type_window_size: 1, bias: 3, ..Default::default() };
+        m.char_ngram_model.push(NgramData { ngram: "a".into(), weights: vec![1, -1] });
+        match name {
+            "comment" => m.dict_model.push(WordWeightRecord { word: "語".into(), weights: vec![1, -1], comment: "c".repeat(n) }),
+            "word4" => m.dict_model.push(WordWeightRecord { word: "𠀋".repeat(n), weights: { let mut w = vec![0; n + 1]; w[0] = 4; w[n] = -4; w }, comment: String::new() }),
+            _ => {
+                let mut tm = crate::c06::tag_model("a", &[2], &[crate::c06::TagNg::Char("a".into(), 0)], 0, 5);
+                if name == "tag" {
+                    tm.tags[0][1] = "t".repeat(n);
+                } else {
+                    tm.token = "k".repeat(n);
+                }
+                m.tag_models.push(tm);
+            }
+        }
+        out.push((format!("giant-{name}-{n}"), m.to_bytes()));
+    }
     // one long vector per file (dictionary words of 255..1024 characters, window 255, 256/512/600 tag candidates)
     for (d, spec, _) in crate::c01::long_vector_family(Tier::Quick).into_iter().step_by(tier.pick(3, 1)) {
         out.push((d, spec.to_bytes()));
